@@ -145,6 +145,28 @@ fn check_case(ctx: &mut Ctx, c: &Case) {
         })));
     }
     if len <= 4200 {
+        // A raw vector that went through pushes and pops before the conversion (stale bits beyond
+        // the length would corrupt the cached number of set bits).
+        routes.push(("RawVector push_bit/pop_bit history", guard(|| {
+            use simple_sds::raw_vector::{PopRaw, PushRaw, RawVector};
+            let mut raw = RawVector::new();
+            for b in ModelIter::new(&m) {
+                raw.push_bit(b);
+            }
+            raw.push_bit(true);
+            raw.push_bit(true);
+            raw.pop_bit();
+            raw.pop_bit();
+            unsafe {
+                raw.push_int(!0u64, 64);
+                raw.pop_int(64);
+                raw.push_int(!0u64, 7);
+                raw.pop_int(7);
+            }
+            let mut v = BitVector::from(raw);
+            enable_all(&mut v);
+            v
+        })));
         routes.push(("From<SparseVector>", guard(|| {
             let sv: SparseVector = sparse_from_model(&m).expect("harness: sparse builder refused a valid model");
             let mut v = BitVector::from(sv);
